@@ -26,6 +26,10 @@ RULE = (
     "sys.setswitchinterval(1e-6) must leave the same tree as sequential; distinct job completion orders are counted. "
     "Non-trivial and distinct = distinct (mode, pair, options) where the real run would change the destination."
 )
+RULE += (
+    " " + "Added later: symbolic links among source files and follow_symlinks=False in dry runs; a deep sync after a same-size same-mtime change that follows an 'identical' verdict; the parallel run must refuse what the sequential run refuses; collect_stats."
+    " In every third case DEBUG logging is effective for the package."
+)
 ASSUMPTIONS = [
     "Dry-run and real-run outcomes are compared by exception class.",
     "Parallel synchronisation is compared on options without conflicts raised (strategy given or no conflicts).",
